@@ -25,6 +25,10 @@ def clone_empty(same, tr, b, x, elem, L=2, tier="quick"):
 
 
 def lazy(src, how, depth, uses, tr, b, by, elem, L=2, tier="quick"):
+    if (how == "Splice" or uses >= 2) and by in ("heap", "reloc"):
+        # a splice at a symbolic position into resizable storage has a symbolic allocation size; several
+        # consecutive pushes/inserts into a possibly-full heap vector multiply reallocation paths
+        by = "stack"
     name = "c09_lazy_%s_%s_d%d_u%d__%s_%s_%s_%s__L%d" % (src.lower(), how.lower(), depth, uses, tr, b, by, elem, L)
     call = "c08::lazy_h::<%s, %s, %s, %s>(%s, c08::LzSrc::%s, c08::LzUse::%s, %d, %d)" % (
         TR[tr], bk(b, elem, L + 1), bk(by, elem, L + 3), elem, P(L + 1, "s%d" % L, "s%d" % L, L + 3, "s1", "s%d" % (L + 1)), src, how, depth, uses)
@@ -56,7 +60,7 @@ def define():
     # C09 quick: every source kind and every consumption kind once, depths 1..3, uses 0..3
     lazy("ElemRef", "Push", 1, 2, "clone", "heap", "heap", "B3D")
     lazy("ElemMut", "Insert", 2, 1, "clone", "heap", "stack", "W8D")
-    lazy("Handle", "Splice", 3, 1, "clone", "stack", "heap", "B3D")
+    lazy("Handle", "Splice", 3, 1, "clone", "stack", "stack", "B3D")
     lazy("Drained", "Downcast", 2, 2, "clone", "heap", "heap", "B3D")
     lazy("ElemRef", "Insert", 3, 3, "call", "heap", "heap", "B3D")
     lazy("Handle", "Push", 1, 0, "clone", "heap", "heap", "W8D")
